@@ -100,6 +100,9 @@ def shortForm (s : Str) : Option Str :=
     else shortTry none s
   | [] => none
 
+/-- `number_string.replace("D", "e").replace("d", "e")`, character by character -/
+def replD : Char → Char := fun c => if c = 'D' || c = 'd' then 'e' else c
+
 inductive NumErr where
   | valueError
   deriving DecidableEq, Repr
@@ -116,7 +119,7 @@ def convertFortran (s : Str) : Except NumErr Dec :=
         | none => .error .valueError)      -- np.float64 raises inside the regex branch
       | none =>
         if s.any (fun c => c = 'D' || c = 'd') then
-          match pyFloat (s.map (fun c => if c = 'D' || c = 'd' then 'e' else c)) with
+          match pyFloat (s.map replD) with
           | some v => .ok v
           | none => .error .valueError
         else .error .valueError
